@@ -1678,6 +1678,7 @@ func (app *App) repairSlaveOfflineMode(host string, state *nodestate.NodeState, 
 		return
 	}
 	// online => offline, if lag has increased
+	pendingCounted := false
 	if !state.IsOffline && !masterState.IsReadOnly && *state.SlaveState.ReplicationLag > app.config.OfflineModeEnableLag.Seconds() {
 		if app.offlineModeFilter.CanSetOffline(host, clusterState, pendingOfflineByAZ) {
 			err := node.SetOffline()
@@ -1690,6 +1691,7 @@ func (app *App) repairSlaveOfflineMode(host string, state *nodestate.NodeState, 
 				// Track all replicas which were set offline on current step
 				az := getAvailabilityZone(host, app.config.OfflineModeAZSeparator)
 				pendingOfflineByAZ[az]++
+				pendingCounted = true
 
 				err = app.optController.Enable(node)
 				if err != nil {
@@ -1724,6 +1726,11 @@ func (app *App) repairSlaveOfflineMode(host string, state *nodestate.NodeState, 
 			app.logger.Error().Err(err).Msgf("repair: failed to set slave %s offline", host)
 		} else {
 			app.logger.Info().Msgf("repair: slave %s set offline, because replication permanently broken", host)
+
+			// Broken replicas taken offline on current step count towards the AZ limit too
+			if !pendingCounted {
+				pendingOfflineByAZ[getAvailabilityZone(host, app.config.OfflineModeAZSeparator)]++
+			}
 		}
 	}
 }
